@@ -253,15 +253,64 @@ fn validation_part(rep: &mut Report, tier: Tier, seed: u64) {
                     let mut env = miter::model_env(&model);
                     // short-circuit: supply a value for one inner operator node that differs from its own value
                     let mut supplied: Option<(ExprRef, Val)> = None;
-                    if a == 1 {
+                    if a == 1 || a == 2 {
+                        // candidates: inner operator nodes among the children and grandchildren, bit-vector typed
+                        // (a == 1: first child that qualifies, as before) or of any type incl. arrays (a == 2: chosen
+                        // by the instance's generator - a supplied *array* value for a store / ite / constant-array
+                        // node below a read was added after an independently seeded read-over-write fast path)
+                        let is_inner = |k: &ExprRef| !matches!(decompose(&ctx[*k]).op, Op::BVSymbol | Op::ArraySymbol | Op::BVLiteral);
                         let kids = decompose(&ctx[e]).kids;
-                        if let Some(k) = kids.iter().find(|k| !matches!(decompose(&ctx[**k]).op, Op::BVSymbol | Op::ArraySymbol | Op::BVLiteral) && matches!(RefEnc::type_of(&ctx, **k), Ok(Ty::BV(_)))) {
-                            if let Ok(Ty::BV(w)) = RefEnc::type_of(&ctx, *k) {
-                                if let Ok(Val::BV(v, _)) = bigeval::eval(&ctx, &env, *k) {
-                                    let nv = Val::BV((v + 1u32) & bigeval::mask(w), w);
-                                    env.insert(*k, nv.clone());
-                                    supplied = Some((*k, nv));
-                                    r.count("short_circuit_points", 1);
+                        let mut cands: Vec<ExprRef> = vec![];
+                        if a == 1 {
+                            cands.extend(kids.iter().copied().filter(|k| is_inner(k) && matches!(RefEnc::type_of(&ctx, *k), Ok(Ty::BV(_)))).take(1));
+                        } else {
+                            // no supplied *array* directly under an array equality: a supplied array that is equal to
+                            // the other operand but differs from it in its default is the recorded array-equality
+                            // finding of the dependency (it would re-appear here under new roles)
+                            let is_arr = |k: &ExprRef| matches!(RefEnc::type_of(&ctx, *k), Ok(Ty::Arr(..)));
+                            let root_is_aeq = decompose(&ctx[e]).op == Op::ArrayEqual;
+                            for k in kids.iter() {
+                                if is_inner(k) {
+                                    if !(is_arr(k) && root_is_aeq) {
+                                        cands.push(*k);
+                                    }
+                                    let k_is_aeq = decompose(&ctx[*k]).op == Op::ArrayEqual;
+                                    cands.extend(decompose(&ctx[*k]).kids.into_iter().filter(|g| is_inner(g) && !(is_arr(g) && (k_is_aeq || root_is_aeq))));
+                                }
+                            }
+                            // arrays first: they are the rarer case
+                            let arrs: Vec<ExprRef> = cands.iter().copied().filter(|k| matches!(RefEnc::type_of(&ctx, *k), Ok(Ty::Arr(..)))).collect();
+                            if !arrs.is_empty() && rng.chance(2, 3) {
+                                cands = arrs;
+                            }
+                            if !cands.is_empty() {
+                                let pick = cands[rng.below(cands.len())];
+                                cands = vec![pick];
+                            }
+                        }
+                        if let Some(k) = cands.first() {
+                            let nv = match bigeval::eval(&ctx, &env, *k) {
+                                Ok(Val::BV(v, w)) => Some(Val::BV((v + 1u32) & bigeval::mask(w), w)),
+                                Ok(Val::Arr { iw, dw, default, map }) => {
+                                    // other contents in cell 0 and in cell 2^iw - 1; the default is kept (arrays that differ
+                                    // in their default only by representation are the recorded array-equality finding
+                                    // of the dependency and would show up here under a new role)
+                                    let m = bigeval::mask(dw);
+                                    let mut m2 = map.clone();
+                                    for cell in [BigUint::from(0u32), bigeval::mask(iw)] {
+                                        let cur = map.get(&cell).cloned().unwrap_or(default.clone());
+                                        m2.insert(cell, (cur + 1u32) & &m);
+                                    }
+                                    Some(Val::Arr { iw, dw, default, map: m2 })
+                                }
+                                Err(_) => None,
+                            };
+                            if let Some(nv) = nv {
+                                env.insert(*k, nv.clone());
+                                supplied = Some((*k, nv));
+                                r.count("short_circuit_points", 1);
+                                if a == 2 {
+                                    r.count("short_circuit_points_deep_or_array", 1);
                                 }
                             }
                         }
